@@ -3,16 +3,19 @@ import Tuc.Spec.Record
 import Tuc.Lemmas.Run
 import Tuc.Lemmas.Bounds
 import Tuc.Lemmas.Split
+import Tuc.Lemmas.CutStrSpec
 /-!
 # C01 — field mode emits exactly the requested fields, in request order
 
 Target (DESIGN.md §C01): `readAndCutStr opt input = specRun (cfgOf opt) input` for every literal
 delimiter `d ≠ []`, every option set of the lattice and every well-formed bounds list.
-What is proved so far is listed below.  The refinement of the splitter (`fields_are_contents`,
-`fields_wellformed`, `slice_eq_interleave`, `fields_reconstruct`, and the `-g` / `-p` variants) is
-in `Tuc.Lemmas.Split`; `plain_bound_output` / `greedy_bound_output` below carry it to one
-iteration of the output loop.  The end-to-end statement is not yet assembled into one theorem, so
-the direct oracle of the check (implementation against `specRun`, executed) still carries it.
+
+**Proved** (end of this file, proofs in `Tuc.Lemmas.Split` and `Tuc.Lemmas.CutStrSpec`): the
+statement above for the general engine in field mode, every record, every subset of
+`-g -p -t -s -j -r R -m`, own and generic fallbacks, format fillers, every delimiter (self-
+overlapping ones included) — `general_engine_eq_spec`, and `general_engine_eq_spec_of_parsed` for
+every bounds argument the parser accepts.  Not covered: `--json` (C08), regex delimiters (C16),
+`-c`/`-b`/`-l` (their own engines).
 -/
 namespace Tuc
 open Tuc.Spec
@@ -161,6 +164,62 @@ example :
     b.tryIntoRange fields.length = some (0, 0) ∧
     outputBof line fields fields.length { delimiter := d, bounds := ⟨[], .cont⟩ } false
         (.bound b) = Run.ok [97] := by
+  decide
+
+/-! ## the end-to-end refinement -/
+
+/-- **C01, one record** (scratch buffers of any content): the engine's run on a record is the
+    specification of the record.  `AllNonzero`: no written index is 0 (the parser rejects it);
+    `LastMarked`: `is_last` is set on exactly the last bound (`fromVec`). -/
+theorem general_record_eq_spec (opt : Opt) (line : Bytes) (f₀ : List Range) (b₀ : Bytes)
+    (hd : opt.delimiter ≠ []) (hre : opt.regexBag = none) (hty : opt.boundsType = .fields)
+    (hjson : opt.json = false) (hz : AllNonzero opt.bounds.list) (hL : LastMarked opt.bounds.list) :
+    (cutStr line opt f₀ b₀ [opt.eol.byte]).1 = specRecord (cfgOf opt) line :=
+  cutStr_eq_spec opt line hd hre hty hjson hz hL
+
+/-- **C01.**  The general field engine is the specification. -/
+theorem general_engine_eq_spec (opt : Opt) (input : Bytes)
+    (hd : opt.delimiter ≠ []) (hre : opt.regexBag = none) (hty : opt.boundsType = .fields)
+    (hjson : opt.json = false) (hz : AllNonzero opt.bounds.list) (hL : LastMarked opt.bounds.list) :
+    readAndCutStr opt input = specRun (cfgOf opt) input :=
+  readAndCutStr_eq_specRun opt input hd hre hty hjson hz hL
+
+/-- **C01, for every `--fields` argument the parser accepts.** -/
+theorem general_engine_eq_spec_of_parsed (opt : Opt) (input : Bytes) (fieldsArg : List Char)
+    (hparse : boundsListOfString fieldsArg = .ok opt.bounds)
+    (hd : opt.delimiter ≠ []) (hre : opt.regexBag = none) (hty : opt.boundsType = .fields)
+    (hjson : opt.json = false) :
+    readAndCutStr opt input = specRun (cfgOf opt) input :=
+  readAndCutStr_eq_specRun_of_parsed opt input fieldsArg hparse hd hre hty hjson
+
+/-- and therefore it ends with exit status 0 or 1, whatever the input: no panic, no hang -/
+theorem general_engine_clean (opt : Opt) (input : Bytes)
+    (hd : opt.delimiter ≠ []) (hre : opt.regexBag = none) (hty : opt.boundsType = .fields)
+    (hjson : opt.json = false) (hz : AllNonzero opt.bounds.list) (hL : LastMarked opt.bounds.list) :
+    (readAndCutStr opt input).status = .ok ∨ (readAndCutStr opt input).status = .fail :=
+  readAndCutStr_clean opt input hd hre hty hjson hz hL
+
+/-- the stage with no option at all, as a special case -/
+theorem plain_record_eq_spec (d line : Bytes) (bounds : UserBoundsList) (hd : d ≠ [])
+    (hz : AllNonzero bounds.list) (hL : LastMarked bounds.list) :
+    (cutStrCore line { delimiter := d, bounds := bounds } [10]).1 =
+      specRecord (cfgOf { delimiter := d, bounds := bounds }) line :=
+  cutStr_eq_spec { delimiter := d, bounds := bounds } line hd rfl rfl rfl hz hL
+
+/-- `-g -p -r X -j -t b` at once, a self-overlapping delimiter, a format filler and a negative
+    index: `--a------b--c--` cut at `--` with `-f '{2}:{-1}'` -/
+def demoOpt : Opt :=
+  { delimiter := [45, 45], greedyDelimiter := true, compressDelimiter := true,
+    replaceDelimiter := some [88], join := true, trim := some .both,
+    bounds := ⟨[.bound { l := .some 2, r := .some 2 }, .filler [58],
+                .bound { l := .some (-1), r := .some (-1), isLast := true }], .cont⟩ }
+
+def demoLine : Bytes := [45, 45, 97, 45, 45, 45, 45, 45, 45, 98, 45, 45, 99, 45, 45]
+
+/-- the engine and the specification, both executed: `bX:c` -/
+example :
+    (cutStrCore demoLine demoOpt [10]).1 = Run.ok [98, 88, 58, 99, 10] ∧
+    specRecord (cfgOf demoOpt) demoLine = Run.ok [98, 88, 58, 99, 10] := by
   decide
 
 end Tuc
